@@ -11,9 +11,9 @@ CHECKS = {
     note="Assumes: SpVecGF2 operator contracts K2/K3 (checked bounded under C17), view abstraction to 64 coordinates, ForestIndex bijection (C16), search-function contracts K9-K11 only bounded. CBMC, goto-instrument, g++/Boost trusted."),
  "C02": dict(
     engine="E1+E3", category="other", design_ref="DESIGN.md 4/C02, 3 (K9,K10,K12,K16)",
-    technique="CBMC contracts on loop-free arithmetic helpers (proof) + bounded enforcement of the minimum-odd-cycle contracts of the search functions and of the whole-function optimality contract against independent oracles",
+    technique="CBMC contracts: loop-free arithmetic helpers (proof); the phase of mcb_sva_signed and the sorted tree lookup proved modularly against the contracts of the search / candidate builder (loop contracts); sortedness of the candidate list (std::sort contracts); candidate builder, update_parities and the composed main loops as bounded CBMC units + bounded enforcement of the minimum-odd-cycle contracts of the search functions and of the whole-function optimality contract against independent oracles",
     text="Minimality is not expressible as a CBMC contract; it is decomposed (de Pina) into per-phase 'minimum odd cycle' contracts. Proved: closed_plus and the scalar prefix of the label order (full domain). Bounded: bidirectional_signed_dijkstra for every witness set/start vertex/hidden chain/limit against a two-level shortest-path oracle, OddCycleFinder::find against enumerated odd cycles, whole functions against brute-force + Horton oracles (returned value = emitted sum = optimum, sorted weight vectors equal).",
-    note="Assumes exact-domain weights; oracles trusted after mutual cross-check; tree-variant search contracts (K11) covered through the whole-function runs and C14. Nothing about minimality is proved deductively."),
+    note="Assumes exact-domain weights; oracles trusted after mutual cross-check; tree-variant search contracts (K11) additionally by a bounded CBMC unit with small weights (n<=4/5). The global optimum itself is not proved deductively."),
  "C17": dict(
     engine="E2+E3", category="other", design_ref="DESIGN.md 4/C17, 3 (K1-K3)",
     technique="CBMC C++ front end on the unmodified header, harness-level contracts (assume canonical arbitrary state / assert canon+view), one run per length pair; native replay and seeded histories",
@@ -86,7 +86,7 @@ CHECKS = {
     note="Boost.MPI model and TBB model are assumptions; serialisation bypassed in the model (exercised by the real-mpiexec replay and the demo runs of C11); only edge-node addresses are permuted."),
  "C07": dict(
     engine="E1+E2+E3", category="other", design_ref="DESIGN.md 4/C07",
-    technique="CBMC safety obligations (bounds, pointer validity/lifetime, overflow, division, conversions) and frame clauses on every extracted/included unit; bounded runs of all stand-in drivers under ASan+LSan+UBSan incl. dereferencing every handed-back descriptor",
+    technique="CBMC safety obligations (bounds, pointer validity/lifetime, overflow, division, conversions) and frame clauses on every extracted/included unit; bounded runs of all stand-in drivers under ASan+LSan+UBSan incl. dereferencing every handed-back descriptor; reads of uninitialised automatics in the DIMACS reader by a differential of two builds (-ftrivial-auto-var-init=pattern vs zero) over the grammar enumerator",
     text="Per-function absence of UB for all inputs in each unit's bound (CBMC) for the code within reach; for the Boost.Graph templates only bounded sanitizer runs on the quick sets (empty graph, single vertex, forests, disconnected graphs, sequential and real TBB). Found and repaired: heap-use-after-free through descriptors of the freed spanner.",
     note="UB invisible to both CBMC and sanitizers is not claimed (e.g. references to destroyed stateless temporaries); libtbb/libstdc++ uninstrumented; MPI entry points are not run under sanitizers."),
  "C08": dict(
